@@ -3,7 +3,7 @@ from pyvc.verify import Post, Case, Equiv, NativeFacts
 from contracts import common, C15
 
 PROPERTY = 'C16'
-REF_MODULES = ['ref_reduce']
+REF_MODULES = ['ref_reduce', 'h_ops']
 
 
 def config(cfg):
@@ -24,6 +24,13 @@ def contracts():
                     args={'self': 'inst:reduction.Fold', 'target': 'ref', 'tree': 'dict'}))
     cs.append(Equiv('reduction.Merge._agg', 'ref_reduce.merge_agg_ref', config=_nosum('reduction.Merge._agg'),
                     args={'self': 'inst:reduction.Merge', 'target': 'ref', 'tree': 'dict'}))
+    # the same step contracts by DISPATCH on each concrete reduction class (an _agg override added to a subclass is what gets executed)
+    nosum = _nosum('reduction.Fold._agg', 'reduction.Merge._agg')
+    for cname in ('Fold', 'Sum', 'Count', 'Flatten'):
+        cs.append(Equiv('h_ops.agg_step', 'ref_reduce.fold_agg_ref', label='LEMMA C16.agg[%s]' % cname, config=nosum,
+                        args={'spec': 'inst:reduction.%s' % cname, 'target': 'ref', 'tree': 'dict'}))
+    cs.append(Equiv('h_ops.agg_step', 'ref_reduce.merge_agg_ref', label='LEMMA C16.agg[Merge]', config=nosum,
+                    args={'spec': 'inst:reduction.Merge', 'target': 'ref', 'tree': 'dict'}))
     cs.append(Equiv('grouping.Limit.glomit', 'ref_reduce.limit_glomit_ref', args={'self': 'inst:grouping.Limit', 'target': 'ref', 'scope': 'chainmap'}))
     cs.append(Equiv('grouping.Group.glomit', 'ref_reduce.group_glomit_ref', args={'self': 'inst:grouping.Group', 'target': 'ref', 'scope': 'chainmap'},
                     loops={1: dict(vars=[('ret', 'ref'), ('last', 'ref'), ('self', 'inst:grouping.Group'), ('scope', 'chainmap')],
